@@ -177,3 +177,4 @@ package cdata
 //@   requires forall(j1, 0, iprod(other.shape, other.rank), forall(j2, 0, iprod(other.shape, other.rank), implies(j1 != j2, nd.Start + sladdr(other.shape, nd.OffsetStep, nilints, 1, j1, other.rank, other.rank) != nd.Start + sladdr(other.shape, nd.OffsetStep, nilints, 1, j2, other.rank, other.rank))))
 //@   assigns nd.Impl[*]
 //@   ensures [C03.copyfrom-footprint,C01.copyfrom-footprint] forall(j, 0, iprod(other.shape, other.rank), nd.Impl[old(nd.Start) + sladdr(other.shape, nd.OffsetStep, nilints, 1, j, other.rank, other.rank)] == other.at(j))
+
